@@ -50,8 +50,8 @@ func extraC06(c *Ctx) {
 			e = ast.Unparen(e)
 			if call, ok := e.(*ast.CallExpr); ok && core.CalleeName(info, call) == "slices.ContainsFunc" && len(call.Args) == 2 && core.FieldVar(info, call.Args[0]) == fSeqs {
 				// predicate `s != seq`
-				if fl, isLit := ast.Unparen(call.Args[1]).(*ast.FuncLit); isLit && len(fl.Body.List) == 1 {
-					if rs, isRet := fl.Body.List[0].(*ast.ReturnStmt); isRet && len(rs.Results) == 1 {
+				if fl, isLit := ast.Unparen(call.Args[1]).(*ast.FuncLit); isLit {
+					if rs := core.SoleReturn(info, fl.Body); rs != nil && len(rs.Results) == 1 {
 						if be, isB := ast.Unparen(rs.Results[0]).(*ast.BinaryExpr); isB && be.Op == token.NEQ {
 							return true
 						}
